@@ -176,6 +176,7 @@ class Alignment:
         self.new = new
         self.stmt: dict = {}
         self.block: dict = {}
+        self.dups: set = set()      # old block paths where duplicates make the alignment a matter of choice
         self._align(old.body, new.body, (), ())
 
     def _mark_lost(self, s, spath):
@@ -191,6 +192,9 @@ class Alignment:
         fn = [fingerprint(s) for s in news]
         pairs = _lcs(fo, fn)
         anchors = dict(pairs)
+        dup = len(set(fo)) != len(fo) or len(set(fn)) != len(fn)
+        if dup:
+            self.dups.add(opath)
         matched_new = {j for _, j in pairs}
         # second pass inside the gaps: compound statements whose header survives
         gaps = []
@@ -231,8 +235,7 @@ class Alignment:
             sp = opath + (i,)
             if i in anchors:
                 j = anchors[i]
-                amb = fn.count(fo[i]) > 1 or fo.count(fo[i]) > 1
-                self.stmt[sp] = ('same', npath + (j,), amb)
+                self.stmt[sp] = ('same', npath + (j,), dup)
                 # children are identical too
                 self._same_children(s, news[j], sp, npath + (j,))
             elif i in inside:
@@ -248,6 +251,8 @@ class Alignment:
                     elif oi > i:
                         hi = nj
                         break
+                if dup:
+                    lo, hi = 0, len(news)
                 self.stmt[sp] = ('rewritten', npath, lo, hi)
                 if i in carried:
                     self._align_children(s, news[carried[i]], sp, npath + (carried[i],))
@@ -297,6 +302,8 @@ class Alignment:
             return ('lost',)
         npath, anchors, nlen = b
         nlo, nhi = 0, nlen
+        if bpath in self.dups:
+            return ('span', npath, 0, nlen)
         for oi, nj in sorted(anchors.items()):
             if oi < lo:
                 nlo = nj + 1
